@@ -376,31 +376,29 @@ class Grammar:
                 considered_subtypes.append(k)
                 new_symbols.append(k)
 
+        def add_type(k):
+            # strip (possibly nested) wrappers down to the symbols they mention
+            if is_metahandler(k) or is_generic_list(k):
+                add_type(get_generic_parameter(k))
+            elif is_generic(k):
+                for v in get_generic_parameters(k):
+                    add_type(v)
+            else:
+                add(k)
+
         while new_symbols:
             c = new_symbols.pop(0)
             if c in self.alternatives:
                 for k in self.alternatives[c]:
                     add(k)
-            elif is_dataclass(c):
-
-                def add_type(k):
-                    # strip (possibly nested) wrappers down to the symbols they mention
-                    if is_metahandler(k) or is_generic_list(k):
-                        add_type(get_generic_parameter(k))
-                    elif is_generic(k):
-                        for v in get_generic_parameters(k):
-                            add_type(v)
-                    else:
-                        add(k)
-
-                for _, k in get_arguments(c):
-                    add_type(k)
             elif c in [bool, int, str, float, list, tuple]:
                 pass
-            elif is_abstract(c):
+            elif is_abstract(c) and not is_dataclass(c):
                 pass  # an abstract class without productions contributes no symbols
             else:
-                assert False
+                # a production: a dataclass, or a plain class with a type-annotated constructor (validate() accepts both)
+                for _, k in get_arguments(c):
+                    add_type(k)
 
         return extract_grammar(considered_subtypes, self.starting_symbol)
 
